@@ -29,7 +29,7 @@ def observe(machine, st, S, what):
         finally:
             plt.close('all')
     elif what in ('draw', 'drawnc'):
-        out.update(draw(machine, S, compact=(what == 'draw')))
+        out.update(draw(machine, S, compact=(what == 'draw'), forced_order=st.get('order')))
     elif what == 'stim':
         from qce_circuit.addon_stim import to_stim
         out['text_len'] = len(str(to_stim(handle(S, machine))))
@@ -42,7 +42,7 @@ def observe(machine, st, S, what):
     return out
 
 
-def draw(machine, S, compact):
+def draw(machine, S, compact, forced_order=None):
     """plot_circuit with a channel order / label map chosen deterministically from the circuit; the description the real
     plot path hands to the renderer (inside its own duration override) is captured together with the rectilinear
     transforms of its draw components."""
@@ -66,6 +66,8 @@ def draw(machine, S, compact):
     labels = None
     if mode in (1, 2) and occupied:
         labels = {ch: 'L%d' % ch for ch in rnd.sample(occupied, rnd.randint(1, len(occupied)))}
+    if forced_order is not None:                   # a directed program names the channel order itself
+        order, mode, labels = list(forced_order), 9, None
     cap = {}
     orig = DC.plot_circuit_description
 
